@@ -18,6 +18,9 @@ type C01Scenario struct {
 	Cmds       []Cmd
 	CancelAt   map[int]int64 `json:",omitempty"` // command index -> tick at which the simulator cancels the evaluation
 	Restored   []string      `json:",omitempty"` // JSON documents decoded and bound as r0, r1, … before the first command
+	// RegPatterns: custom dice patterns the embedding program registers before the first command (valid,
+	// invalid, and valid-but-odd regular expressions): the registration call itself must not crash
+	RegPatterns []string `json:",omitempty"`
 }
 
 func c01Gen(seed uint64, tier string) any {
@@ -86,8 +89,19 @@ func c01Gen(seed uint64, tier string) any {
 	if r.Chance(1, 4) {
 		sc.CancelAt = map[int]int64{r.Intn(len(sc.Cmds)): int64(r.Range(1, 60))}
 	}
+	if r.Chance(1, 8) {
+		for i := r.Range(1, 2); i > 0; i-- {
+			sc.RegPatterns = append(sc.RegPatterns, Pick(r, oddPatterns))
+		}
+	}
 	return sc
 }
+
+// oddPatterns: what a host might hand to RegCustomDice. Patterns that match the empty string or everything
+// (``, `.*`, `x*`) are left out: with those the host itself makes every operand position a custom dice
+// attempt over the rest of the input, and a 100 KB source takes a minute - the host's doing, not an input's.
+var oddPatterns = []string{`Z\Q(+)`, `Q\Q`, `(`, `)`, `[`, `\`, `a{1001}`, `(?i)kk(\d+)`, `(a|b)*c`, `E(\d+)|F(\d+)`, `^G(\d+)`, `H(\d+)$`, `(?P<n>J\d+)`, `\pL+\d`,
+	strings.Repeat("(", 999) + "K" + strings.Repeat(")", 999), strings.Repeat("(", 1000) + "K" + strings.Repeat(")", 1000), `\x{110000}`, `[z-a]`, `M(?=1)`, "N\\"}
 
 func randPlan(r *Rng, n int) string {
 	b := make([]byte, n)
@@ -188,6 +202,18 @@ func c01Exec(raw json.RawMessage, res *RunResult) {
 	h := NewHost(sc.Host, m)
 	vm := sc.Cfg.NewVM()
 	h.Install(vm)
+	for _, pat := range sc.RegPatterns {
+		pat := pat
+		p, _, _, sig, msg := Guard(func() {
+			_ = vm.RegCustomDice(pat, func(ctx *ds.Context, groups []string, payload any) (*ds.VMValue, string, error) {
+				return ds.NewIntVal(1), "", nil
+			})
+		})
+		res.Fault("register_odd_pattern")
+		if p {
+			res.Violate(sig, "RegCustomDice(%q) panicked: %s", trunc(pat, 80), msg)
+		}
+	}
 	for i, doc := range sc.Restored {
 		p, _, _, sig, msg := Guard(func() {
 			if v, err := ds.VMValueFromJSON([]byte(doc)); err == nil && v != nil {
